@@ -129,9 +129,24 @@ pub fn c07(thorough: bool) -> Vec<Part> {
     c1.reads = true;
     c1.can_shut_rd = false;
     c1.can_shut_wr = false;
-    let mut b = SrvCfg::base("C07", "pipelined pair vs late connecting client, responses in any order", vec![c0, c1]);
+    let mut b = SrvCfg::base("C07", "pipelined pair vs late connecting client, responses in any order, flush_outgoing_writes at any time", vec![c0, c1]);
     b.orders = Orders::AscRev;
+    b.flush_action = true;
     cfgs.push(b);
+    {
+        // a client with a request in flight sends garbage (answered 400), closes; late client
+        let mut g0 = ClientCfg::adversary(vec![tagged_get(0, 0), b"BAD LINE\r\n".to_vec()]);
+        g0.reads = true;
+        g0.can_shut_rd = false;
+        g0.can_shut_wr = false;
+        let mut g1 = ClientCfg::adversary(vec![tagged_get(1, 0)]);
+        g1.reads = true;
+        g1.can_close = false;
+        g1.can_shut_rd = false;
+        g1.can_shut_wr = false;
+        let g = SrvCfg::base("C07", "request in flight, then garbage (400), close; late client reusing the descriptor", vec![g0, g1]);
+        cfgs.push(g);
+    }
     {
         // a read that yields a request AND leaves an interim 100 queued, then close + reuse
         let mut seg = tagged_get(0, 1);
@@ -240,6 +255,16 @@ pub fn c09(thorough: bool) -> Vec<Part> {
     c.resp_sizes = vec![5, 12000];
     c.small_sndbuf = true;
     cfgs.push(c);
+    {
+        // the witness is already connected: its request and an adversary's pipelined pair can
+        // become readable in the same batch (in either order)
+        let mut w = witness(1);
+        w.preconnected = true;
+        let mut p = SrvCfg::base("C09", "adversary: pipelined pair then garbage; witness already connected", vec![ClientCfg::adversary(vec![pair.clone(), b"BAD LINE\r\n".to_vec()]), w]);
+        p.closure_witness = true;
+        p.release_check = true;
+        cfgs.push(p);
+    }
     {
         // two clients that stop reading, one request each: both writes fail in the same batch
         let mk = |c: usize| {
@@ -449,6 +474,7 @@ pub fn c18(thorough: bool) -> Vec<Part> {
     let mut d = SrvCfg::base("C18", "at capacity: an 11th client connects and may close before being handled; kill at every point", clients);
     d.kill_switch = true;
     d.kill_action = true;
+    d.twin_without_kill = true;
     d.orders = Orders::AscRev;
     cfgs.push(d);
     let _ = thorough;
@@ -519,6 +545,20 @@ pub fn c13_server(thorough: bool) -> Part {
     let mut cfg = SrvCfg::base("C13", "expect head, body later; second request without expect", vec![ClientCfg::well_behaved(vec![tagged_expect_head(0, 0, 3), b"abc".to_vec(), tagged_put(0, 1, b"zz")])]);
     cfg.closure_all = true;
     explore(&mut part, &cfg, 500_000, if thorough { 900.0 } else { 60.0 });
+    {
+        // a client that sends an Expect head and hangs up before the 100 is written; the next
+        // client (reusing the descriptor number) must still get its 100
+        let mut quitter = ClientCfg::adversary(vec![tagged_expect_head(0, 0, 3)]);
+        quitter.can_shut_rd = false;
+        quitter.can_shut_wr = false;
+        let late = ClientCfg::well_behaved(vec![tagged_expect_head(1, 0, 2), b"ok".to_vec()]);
+        let mut cfg = SrvCfg::base("C13", "expect head then hang-up; late client with expect on the recycled descriptor", vec![quitter, late]);
+        cfg.closure_all = true;
+        explore(&mut part, &cfg, 500_000, if thorough { 900.0 } else { 60.0 });
+        if part.violations.is_empty() {
+            companion(&mut part, &cfg, if thorough { 11 } else { 9 });
+        }
+    }
     if thorough {
         let mut cfg = SrvCfg::base(
             "C13",
